@@ -91,6 +91,11 @@ def fam_history(seed, n, all_statuses=True):
     ]):
         out.append({"id": "h-thread%d" % j, "exit": {"k": "exited", "v": 9, "at": at}, "ops": ops, "drop": True,
                     "other_thread": True, "kill_latency": MS})
+    # a child started in a process group of its own: signals still go to the child alone, not to its group
+    for j, ops in enumerate([[["terminate"], ["wait"]], [["kill"], ["wait"]], [["send_signal", 10], ["poll"], ["kill"], ["wait"]],
+                             [["poll"], ["send_signal", 0], ["terminate"], ["wait_timeout", 5 * MS], ["kill"], ["wait"]]]):
+        out.append({"id": "h-pgrp%d" % j, "exit": {"k": "exited", "v": 0, "at": None}, "ops": ops, "drop": True, "setpgid": True,
+                    "kill_latency": MS})
     # numbers that are no signal must be refused by the kernel as they are -- not reach the child as another signal
     for j, sig in enumerate([256, 265, 271, -241, 65536 + 9, 2 ** 31 - 1, -(2 ** 31)]):
         out.append({"id": "h-badsig%d" % j, "exit": {"k": "exited", "v": 3, "at": None},
